@@ -49,6 +49,9 @@ for mf in sorted(glob.glob(os.path.join(V, 'seeded', '*', 'meta.json'))):
     vio = m.get('violations', [])
     caught = m.get('caught_by') or ('./check %s (quick)' % m['property'] if m.get('violation_lines') else 'MISSED')
     ex = re.sub(r'.*replay/', '', vio[0].split('replay=')[1]) if vio else ''
+    if m.get('strengthened'):
+        fa = m.get('first_attempt') or {}
+        caught += ' **only after strengthening**: ' + m['strengthened'] + ((' (before: exit %s; %s)' % (fa.get('check_exit', '?'), fa.get('note') or fa.get('caught_by') or '')) if fa else '')
     L.append('| %s | %s | %s / %s | %s | %s | %d%s |' % (sid, m['property'], m.get('demo_on_original_exit'), m.get('demo_on_changed_exit'), str(m.get('test_suite_on_changed', ''))[:40],
                                                       caught + ((' - ' + m['note']) if m.get('note') else ''), m.get('violation_lines', 0), (' (e.g. `%s`)' % ex) if ex else ''))
 L += ['', '<!-- END GENERATED -->']
